@@ -249,6 +249,11 @@ def extern_global(ex, name, g, m):
             else:
                 p.objs[r.base] = {'kind': name, 'region': r}
         return r
+    if name in ('stderr', 'stdout', 'stdin'):
+        # FILE * of the C library: only handed to fprintf-like stubs
+        r = mem.alloc(8, '@' + name, 'global', fill=0)
+        mem.store(r.base, mem.alloc(8, 'FILE ' + name, 'heap', fill=0).base, 8)
+        return r
     if name.startswith('ffi_type_'):
         # libffi's type descriptors: only their addresses are used by the code under test
         return mem.alloc(24, '@' + name, 'global', fill=0)
